@@ -230,6 +230,36 @@ pub fn call(name: &str, a: &Args, i: &[u8]) -> Option<Out> {
         }
         "parse_dtls_plaintext_record" => c!(i, parse_dtls_plaintext_record, pj::dplain),
         "parse_dtls_plaintext_records" => c!(i, parse_dtls_plaintext_records, |v: &Vec<DTLSPlaintext>| Value::Array(v.iter().map(pj::dplain).collect())),
+        // ---- deep decoding, as an IDS composes the parsers
+        "deep_client_hello" => c!(i, |i| {
+            let (rem, m) = parse_tls_message_handshake(i)?;
+            match m {
+                TlsMessage::Handshake(TlsMessageHandshake::ClientHello(ch)) => {
+                    let exts = match ch.ext { Some(e) => parse_tls_client_hello_extensions(e)?.1, None => Vec::new() };
+                    Ok((rem, (ch, exts)))
+                }
+                _ => Err(tls_parser::nom::Err::Error(tls_parser::nom::error::make_error(i, tls_parser::nom::error::ErrorKind::Switch))),
+            }
+        }, |v: &(TlsClientHelloContents, Vec<TlsExtension>)| json!({"hello": pj::client_hello(&v.0), "exts": pj::exts(&v.1)})),
+        "deep_server_key_exchange" => {
+            let ext = a.ext;
+            let ecdh = a.sub == "ecdh";
+            c!(i, move |i| {
+                let (rem, m) = parse_tls_message_handshake(i)?;
+                match m {
+                    TlsMessage::Handshake(TlsMessageHandshake::ServerKeyExchange(ske)) => {
+                        if ecdh {
+                            let (left, (p, s)) = parse_content_and_signature(ske.parameters, parse_ecdh_params, ext)?;
+                            Ok((rem, json!({"params": {"content": pj::ecdh(&p), "sig": pj::signed(&s)}, "left": left.len()})))
+                        } else {
+                            let (left, (p, s)) = parse_content_and_signature(ske.parameters, parse_dh_params, ext)?;
+                            Ok((rem, json!({"params": {"content": pj::dh(&p), "sig": pj::signed(&s)}, "left": left.len()})))
+                        }
+                    }
+                    _ => Err(tls_parser::nom::Err::Error(tls_parser::nom::error::make_error(i, tls_parser::nom::error::ErrorKind::Switch))),
+                }
+            }, |v: &Value| v.clone())
+        }
         // ---- small derived parsers
         "TlsMessageAlert::parse" => c!(i, TlsMessageAlert::parse, pj::alert),
         "u8" => c!(i, |i| tls_parser::nom::number::streaming::be_u8(i), num),
